@@ -34,6 +34,8 @@ def run_checks(repo, props, evdir):
     env = dict(os.environ)
     env["RWS_REPO"] = repo
     env["RWS_EVIDENCE_DIR"] = evdir
+    env["RWS_CACHE_DIR"] = os.path.join(os.path.dirname(repo), "cache")   # removed with the scratch copy
+    env["RWS_NO_THOROUGH"] = "1"
     res = {}
     for p in props:
         r = subprocess.run([os.path.join(VERIF, "check"), p, "--tier", "quick"], env=env, capture_output=True, text=True, cwd=VERIF)
@@ -42,14 +44,14 @@ def run_checks(repo, props, evdir):
     return res
 
 
-def one(kind, name, path, keep=False):
-    meta = json.load(open(os.path.join(path, "meta.json")))
+def one(kind, name, path, keep=False, meta=None):
+    meta = meta or json.load(open(os.path.join(path, "meta.json")))
     patch = os.path.join(path, "patch.diff")
     t0 = time.time()
     try:
         d, repo = make_scratch(patch)
     except RuntimeError as e:
-        return name, False, str(e)
+        return name, None, "skipped: " + str(e).splitlines()[0]
     try:
         evdir = os.path.join(d, "evidence")
         ok = True
@@ -87,6 +89,7 @@ def main():
     ap.add_argument("--kind", default="all")
     ap.add_argument("--jobs", type=int, default=8)
     ap.add_argument("--keep", action="store_true")
+    ap.add_argument("--props", help="comma list: run only these checks; mutants/seeds that do not expect one of them are skipped")
     a = ap.parse_args()
     jobs = []
     kinds = ["mutants", "benign", "seeded"] if a.kind == "all" else [a.kind]
@@ -102,18 +105,31 @@ def main():
                 continue
             k = "benign" if kind == "benign" else "mutant"
             meta = json.load(open(os.path.join(path, "meta.json")))
-            if k == "mutant" and "expect" not in meta:
+            if kind == "seeded":
+                # a confirmed sub-agent seed: expected to be caught by the checks recorded in its detection matrix
+                meta["expect"] = {p: True for p in (meta.get("caught_by") or {})}
+            if k == "mutant" and not meta.get("expect"):
                 continue
-            jobs.append((k, "%s/%s" % (kind, name), path))
-    bad = 0
+            if a.props:
+                want = set(a.props.split(","))
+                if k == "mutant":
+                    meta["expect"] = {p: v for p, v in meta["expect"].items() if p in want}
+                    if not meta["expect"]:
+                        continue
+                else:
+                    meta["props"] = sorted(want)
+            jobs.append((k, "%s/%s" % (kind, name), path, meta))
+    bad = skipped = 0
     with concurrent.futures.ThreadPoolExecutor(max_workers=a.jobs) as ex:
-        futs = [ex.submit(one, k, n, p, a.keep) for k, n, p in jobs]
+        futs = [ex.submit(one, k, n, p, a.keep, m) for k, n, p, m in jobs]
         for f in futs:
             name, ok, msg = f.result()
-            print("%-60s %s %s" % (name, "ok  " if ok else "FAIL", msg))
-            if not ok:
+            print("%-60s %s %s" % (name, "skip" if ok is None else "ok  " if ok else "FAIL", msg))
+            if ok is None:
+                skipped += 1
+            elif not ok:
                 bad += 1
-    print("selftest: %d variants, %d failed" % (len(jobs), bad))
+    print("selftest: %d variants, %d failed, %d skipped (patch does not apply to the tree under test)" % (len(jobs), bad, skipped))
     return 1 if bad else 0
 
 
